@@ -1,10 +1,12 @@
 pub mod svm;
 pub mod project;
 pub mod world;
+pub mod world2;
 pub mod rec;
 pub mod hist;
 pub mod fndrv;
 pub mod tadrv;
+pub mod matrix;
 pub mod slots {
     include!(concat!(env!("OUT_DIR"), "/slots.rs"));
     pub fn of(name: &str) -> &'static [&'static str] {
